@@ -21,6 +21,10 @@ Programs are core-style (gen/core.py: lines 1/2/3) extended with
   13 variant           (main) GlobalContext phase: thread A selects a GlobalContext {700: 7, 701: 70}, builds the main program
                        inside it and is parked in its first user-code evaluation while thread B builds and runs the same
                        program with no context (variant 0) or inside its own context {710: 8} (variant 1)
+  14 key*              (main) chain of three runs inside ONE GlobalContext {700: 7, 701: 70}: main program, a graph erasing the
+                       listed keys, main program again; after every run the selected state receives the run's final state
+  15 polls ivl burn    (main) a static-node interval poller asking for a WALL-CLOCK alarm under the simulation executor, run
+                       three times from one builder with 0 / burn / 0 microseconds of busy host time per evaluation
   9 R F T sleep flags  plan: R repetitions from ONE builder, F from fresh builders, T threads, seed of the
                        pseudo-random sleeps in node code (0 = none); flags  1 noise runs between repetitions,
                        2 all reuse executors built before any runs, 4 threads build their own executors,
@@ -43,7 +47,11 @@ Companion runs print  30 t x acc (child node)  31 t v count (sink)  32 idx 1 v (
   45 b 0                build b of the wiring program:  60 ids in evaluation (= compiled node) order   61 node_count sum
   46 who variant        GlobalContext phase, thread who (0 = A, 1 = B): the run's lines, then  47 who  and the context's
                         GlobalState after everything (24 / 25 lines)
-The Coq model does not cover sections 43 / 44 / 45 / 46 (`agree` strips them); the oracle states them from a Python reference.
+  48 j kind             run j of the one-context chain (kind 1 = the erasing graph): the run's lines incl. its final GlobalState,
+                        then  47 j  and the SELECTED state after the copy-back
+  49 r burn             run r of the wall-clock-alarm program:  53 offset value (sink)   54 rejected(1)/ran(0)
+  (in 44 units)         35 cycle v / 36 entries: the continuation recording (sparse_record_impl, appends across chained runs)
+The Coq model does not cover sections 43 / 44 / 45 / 46 / 48 / 49 (`agree` strips them); the oracle states them from a Python reference.
 Other:  99 a callback ran inside a run of another program;  18 build / thread error.
 """
 import random
@@ -54,7 +62,7 @@ NAME = "repro"
 DRIVER_SRCS = ["repro_driver.cpp"]
 MODEL_FAMILY = "repro"
 MODE = "diff"
-BUDGET = {"quick": 140, "thorough": 16000}
+BUDGET = {"quick": 140, "thorough": 12000}
 
 MAIN_KEYS = [0, 1, 2, 3, 4, 5]
 NOISE_KEYS = [100, 101, 102, 103]
@@ -212,6 +220,12 @@ def gen(rng, tier, prop):
         main.append([12, rng.randint(8, 16), rng.randint(3, 5), rng.randint(1, 10 ** 6)])
     if rng.random() < 0.4:
         main.append([13, rng.choice([0, 0, 1])])
+    if rng.random() < 0.4:
+        written = sorted({l[3] for l in main if l[0] == 4 and l[2] in (0, 2)} | {l[1] for l in main if l[0] == 6})
+        ks = [701] + ([rng.choice(written)] if written else []) + ([700] if rng.random() < 0.3 else [])
+        main.append([14] + ks)
+    if rng.random() < 0.35:
+        main.append([15, rng.randint(2, 4), rng.choice([20, 50, 100]), rng.choice([150, 300, 500])])
     specs = [_rand_spec(rng) for _ in range(rng.choice([0, 1, 2, 2, 3]))]
     for sp in specs:
         main.append([10] + sp)
@@ -288,6 +302,11 @@ def expected_headers(case):
     cv = next((l[1] for l in secs[0] if l[0] == 13 and len(l) >= 2), -1)
     if cv >= 0:
         tail += [[46, 0, cv], [46, 1, cv]]
+    if any(l[0] == 14 for l in secs[0]):
+        tail += [[48, 0, 0], [48, 1, 1], [48, 2, 0]]
+    al = next((l for l in secs[0] if l[0] == 15 and len(l) >= 4), None)
+    if al and al[1] > 0:
+        tail += [[49, 0, 0], [49, 1, al[3]], [49, 2, 0]]
     hdr, rep, n, crep = [], 0, 0, 0
     for k, a in evs:
         if k == "M":
@@ -303,7 +322,7 @@ def units(out):
     """Split an observation into runs: [(header, lines)]."""
     us = []
     for l in out:
-        if l and l[0] in (40, 41, 42, 43, 44, 45, 46) and len(l) == 3:
+        if l and l[0] in (40, 41, 42, 43, 44, 45, 46, 48, 49) and len(l) == 3:
             us.append((l, []))
         elif us:
             us[-1][1].append(l)
@@ -334,10 +353,14 @@ def _prog_info(sec):
 
 
 # ---------------------------------------------------------------- property oracle
-def _check_run(tag, sec, lines, fails):
+def _check_run(tag, sec, lines, fails, base_seed=None):
     """Isolation of ONE run, judged on its own lines: everything it reads is what the builder's seed held or
     what this run itself wrote; its final GlobalState is seed + own writes - own erasures; node State starts at 0."""
     seeds, gsops, state = _prog_info(sec)
+    if base_seed is not None:
+        merged = dict(base_seed)
+        merged.update(seeds)
+        seeds = merged
     gs = dict(seeds)
     own = set(seeds)
     nstate = {}
@@ -424,7 +447,7 @@ def _check_comp(tag, sec, lines, fails):
                       "%s: GlobalState after the run is %s; seed + own writes imply %s" % (tag, dump, sorted(exp.items()))))
 
 
-def _check_chain(tag, sec, lines, sparse, carried, fails):
+def _check_chain(tag, sec, lines, sparse, carried, fails, cont):
     """A chained companion run: seeded from the previous run's final GlobalState, so the sink counter carries on -
     but the nested child's State and the RECORDING must be this run's own."""
     bias = next((l[1] for l in sec if l[0] == 7 and len(l) >= 2), 0)
@@ -455,6 +478,13 @@ def _check_chain(tag, sec, lines, sparse, carried, fails):
     size = [l[1] for l in lines if l[0] == 33]
     if size != [n]:
         fails.append(("record_leak", "%s: recording length %s; this run implies %d" % (tag, size, n)))
+    # the continuation recording (shared key on purpose) holds every chained run's ticks so far, in order
+    cont.extend(rec)
+    got_c = [(l[1], l[2]) for l in lines if l[0] == 35]
+    n_c = [l[1] for l in lines if l[0] == 36]
+    if got_c != cont or n_c != [len(cont)]:
+        fails.append(("record_continuation_lost", "%s: the continuation recording reads back %s (%s entries); the chained runs so far ticked %s"
+                      % (tag, got_c, n_c, cont)))
     return cnt
 
 
@@ -540,12 +570,41 @@ def _check_context(tag, who, variant, lines, rep0, fails):
                       % (tag, got_after, sorted(exp_after.items()))))
 
 
+def _check_ctx_chain(tag, j, sec, lines, selected, fails):
+    """One run of the chain inside ONE GlobalContext: built from the selected state, and afterwards the selected state IS the
+    run's final state (copy-back replaces; keys the run erased are gone).  Returns the selected state the next run starts from."""
+    cut = next((i for i, l in enumerate(lines) if l[0] == 47 and len(l) == 2), len(lines))
+    run, after = lines[:cut], lines[cut + 1:]
+    if any(l[0] == 18 for l in run):
+        fails.append(("unexpected_error", "%s: build / run failed" % tag))
+        return selected
+    final = [(l[1], l[2]) for l in run if l[0] == 24]
+    if j == 1:
+        exp = dict(selected)
+        for l in run:
+            if l[0] == 22:
+                if l[4] != int(l[3] in exp):
+                    fails.append(("gs_foreign_read", "%s: erase of key %d removed=%d; the state it was seeded with implies %d"
+                                  % (tag, l[3], l[4], int(l[3] in exp))))
+                exp.pop(l[3], None)
+        if final != sorted(exp.items()):
+            fails.append(("gs_keys", "%s: final GlobalState %s; seed minus erased keys is %s" % (tag, final, sorted(exp.items()))))
+    else:
+        _check_run(tag, sec, run, fails, base_seed=selected)
+    got = [(l[1], l[2]) for l in after if l[0] == 24]
+    if got != final:
+        stale = [k for k, _ in got if k not in dict(final)]
+        fails.append(("stale_key_after_copy_back", "%s: after the copy-back the selected state is %s, the finished run's final state is %s%s"
+                      % (tag, got, final, " (keys %s were erased by the run and survived)" % stale if stale else "")))
+    return dict(final)
+
+
 def strip_unmodelled(out):
     """The observation without the sections the Coq model does not cover (43 schema probes, 44 chained runs)."""
     res, keep = [], True
     for l in out:
-        if l and len(l) == 3 and l[0] in (40, 41, 42, 43, 44, 45, 46):
-            keep = l[0] not in (43, 44, 45, 46)
+        if l and len(l) == 3 and l[0] in (40, 41, 42, 43, 44, 45, 46, 48, 49):
+            keep = l[0] not in (43, 44, 45, 46, 48, 49)
         if keep:
             res.append(l)
     return res
@@ -570,10 +629,24 @@ def oracle(prop, case, out):
         fails.append(("plan_shape", "runs printed %s; the plan prescribes %s" % (hdr[:12], exp[:12])))
     first = {}
     carried = 0
+    cont = []
+    selected = {700: 7, 701: 70}
     for h, lines in us:
         if h[0] == 43:
             if 0 <= h[1] < len(secs):
                 _check_schemas("schema requests of section %d" % h[1], h[1], secs[h[1]], lines, fails)
+            continue
+        if h[0] == 48:
+            selected = _check_ctx_chain("run %d of the one-context chain" % h[1], h[1], secs[0], lines, selected, fails)
+            continue
+        if h[0] == 49:
+            what = "wall-clock-alarm program, run %d with %d us of host time per evaluation" % (h[1], h[2])
+            if any(l[0] == 18 for l in lines):
+                fails.append(("unexpected_error", "%s: could not be built" % what))
+            if ("A",) in first and lines != first[("A",)]:
+                fails.append(("speed_dependent", "%s: outcome %s differs from the first run of the same builder %s"
+                              % (what, lines[:8], first[("A",)][:8])))
+            first.setdefault(("A",), lines)
             continue
         if h[0] == 45:
             _check_wiring("wiring program build %d" % h[1], secs[0], lines, first.get(("W",)), fails)
@@ -584,7 +657,7 @@ def oracle(prop, case, out):
                            h[1], h[2], lines, first.get(("M",)), fails)
             continue
         if h[0] == 44:
-            carried = _check_chain("chained companion run %d (%s)" % (h[1], "sparse" if h[2] else "dense"), secs[0], lines, h[2], carried, fails)
+            carried = _check_chain("chained companion run %d (%s)" % (h[1], "sparse" if h[2] else "dense"), secs[0], lines, h[2], carried, fails, cont)
             continue
         if h[0] == 40:
             key, what = ("M",), "main program repetition %d (phase %d)" % (h[1], h[2])
@@ -619,7 +692,8 @@ PROP_KINDS = {
     "C07": {"rep_differs", "noise_rep_differs", "comp_rep_differs", "plan_shape", "callback_cross_run", "build_error",
             "unexpected_error", "state_leak", "child_state_leak", "gs_counter", "gs_foreign_read", "gs_foreign_key",
             "gs_keys", "record_leak", "schema_confused", "window_trace",
-            "build_order_varies", "wiring_run_wrong", "foreign_state_visible"},
+            "build_order_varies", "wiring_run_wrong", "foreign_state_visible",
+            "stale_key_after_copy_back", "speed_dependent", "record_continuation_lost"},
 }
 
 
@@ -644,6 +718,7 @@ def stats(case, out):
           "companion_cases": int(any(l[0] == 7 for l in secs[0])),
           "seed_keys": sum(1 for l in secs[0] if l[0] == 6), "gs_ops_declared": sum(1 for l in secs[0] if l[0] == 4),
           "state_nodes": sum(1 for l in secs[0] if l[0] == 5),
+          "ctx_chain_cases": int(any(l[0] == 14 for l in secs[0])), "alarm_cases": int(any(l[0] == 15 for l in secs[0])),
           "wiring_cases": int(any(l[0] == 12 for l in secs[0])), "context_cases": int(any(l[0] == 13 for l in secs[0])),
           "schema_requests": sum(1 for sec in secs for l in sec if l[0] == 10),
           "tsw_specs": sum(1 for sec in secs for l in sec if l[0] == 10 and len(l) > 1 and l[1] == 4),
@@ -662,6 +737,10 @@ def stats(case, out):
         st["gs_erases_rep0"] = sum(1 for l in m0 if l[0] == 22)
         st["state_updates_rep0"] = sum(1 for l in m0 if l[0] == 23)
         st["error_runs_rep0"] = sum(1 for l in m0 if l[0] == 19)
+        st["ctx_chain_erases"] = sum(1 for u in us if u[0][0] == 48 for l in u[1] if l[0] == 22 and l[4] == 1)
+        st["alarm_runs_rejected"] = sum(1 for u in us if u[0][0] == 49 for l in u[1] if l == [54, 1])
+        st["alarm_runs_ran"] = sum(1 for u in us if u[0][0] == 49 for l in u[1] if l == [54, 0])
+        st["continuation_entries"] = sum(1 for u in us if u[0][0] == 44 for l in u[1] if l[0] == 35)
         st["wiring_builds"] = sum(1 for u in us if u[0][0] == 45)
         st["context_runs"] = sum(1 for u in us if u[0][0] == 46)
         st["chained_runs"] = sum(1 for u in us if u[0][0] == 44)
@@ -701,7 +780,7 @@ def shrink(case):
             yield build(main, noises, p2)
     # drop extension lines / companion of the main program, then of the noise programs
     for k, l in enumerate(main):
-        if l[0] in (4, 5, 6, 7, 10, 11, 12, 13):
+        if l[0] in (4, 5, 6, 7, 10, 11, 12, 13, 14, 15):
             yield build(main[:k] + main[k + 1:], noises, plan_line)
     for j, nz in enumerate(noises):
         for k, l in enumerate(nz):
@@ -709,10 +788,10 @@ def shrink(case):
                 yield build(main, noises[:j] + [nz[:k] + nz[k + 1:]] + noises[j + 1:], plan_line)
     # core shrinking of the main program (scripts, last node, window) keeping the extension lines that stay valid
     core_part = [l for l in main if l[0] in (1, 2, 3)]
-    ext = [l for l in main if l[0] in (4, 5, 6, 7, 10, 11, 12, 13)]
+    ext = [l for l in main if l[0] in (4, 5, 6, 7, 10, 11, 12, 13, 14, 15)]
     for c2 in core.shrink(core_part):
         nn = sum(1 for l in c2 if l[0] == 2)
-        yield build(c2 + [l for l in ext if l[0] in (6, 7, 10, 11, 12, 13) or l[1] < nn], noises, plan_line)
+        yield build(c2 + [l for l in ext if l[0] in (6, 7, 10, 11, 12, 13, 14, 15) or l[1] < nn], noises, plan_line)
     for j, nz in enumerate(noises):
         core_part = [l for l in nz if l[0] in (1, 2, 3)]
         ext = [l for l in nz if l[0] in (4, 5, 6, 10)]
